@@ -1044,6 +1044,8 @@ class err_ele(err_node):
         self.id = 'ELE'
 
         self.parent = parent
+        # ISA/GS/ST nodes also hold the element errors of IEA/GE/SE: those arrive once the loop is closed
+        self.in_trailer = parent is not None and parent.id in ('ISA', 'GS', 'ST') and parent.is_closed()
         #self.children = []
         self.errors = []
 
@@ -1061,6 +1063,7 @@ class err_ele(err_node):
         node.repeat_pos = None
         node.id = 'ELE'
         node.parent = parent
+        node.in_trailer = parent is not None and parent.id in ('ISA', 'GS', 'ST') and parent.is_closed()
         node.errors = []
         return node
 
